@@ -519,6 +519,8 @@ func runDir(r *ev.Run, dc dirCase) {
 			return
 		}
 	}
+	// the same directory read through a fetcher that fails once (dirfaults.go)
+	checkDirAfterFault(r, dc, st, dir.BlobRef(), members, ents, branch, viol)
 	if dc.M > 0 && dc.Count > dc.M && atomic.AddInt32(&dirSamples, 1) == 1 {
 		r.Sample(map[string]any{"kind": "directory", "case": dc, "branch": branch, "static_set_blobs": len(all)})
 	}
